@@ -191,6 +191,9 @@ type Op struct {
 	// include-default (@include(if: $v), $v: Boolean = true, no value given), skip-default
 	// (@skip(if: $w), $w: Boolean = false), include-given ($v given as true), include-literal
 	Cond string `json:"cond,omitempty"`
+	// Wrap: the subscription field is not written directly in the operation but inside an inline
+	// fragment (inline, inline-typed) or a named fragment on Subscription that is spread (spread)
+	Wrap string `json:"wrap,omitempty"`
 }
 
 type c19Case struct {
@@ -251,6 +254,9 @@ func genCaseC19(rt *rapid.T) *c19Case {
 				op.Wildcard = true
 				op.Pattern = rapid.SampledFrom([]string{"a", "b", ""}).Draw(rt, lab+"prefix")
 			}
+			if rapid.IntRange(0, 3).Draw(rt, lab+"wrapped") == 0 {
+				op.Wrap = rapid.SampledFrom([]string{"inline", "inline-typed", "spread"}).Draw(rt, lab+"wrap")
+			}
 			if rapid.IntRange(0, 3).Draw(rt, lab+"conditioned") == 0 {
 				op.Cond = rapid.SampledFrom([]string{"include-default", "skip-default", "include-given", "include-literal"}).Draw(rt, lab+"cond")
 			}
@@ -287,7 +293,7 @@ func genCaseC19(rt *rapid.T) *c19Case {
 									}
 								}
 							}
-							op.Pattern, op.Wildcard, op.Sels, op.Frags, op.Field, op.Cond = prev.Pattern, prev.Wildcard, prev.Sels, prev.Frags, prev.Field, prev.Cond
+							op.Pattern, op.Wildcard, op.Sels, op.Frags, op.Field, op.Cond, op.Wrap = prev.Pattern, prev.Wildcard, prev.Sels, prev.Frags, prev.Field, prev.Cond, prev.Wrap
 							break
 						}
 					}
@@ -420,6 +426,20 @@ func runHistory(cc *c19Case) (ds []hx.Discrepancy, traits map[string]bool, hist 
 			}
 			if op.Cond != "" {
 				traits["conditioned-subscription-field"] = true
+			}
+			switch op.Wrap {
+			case "inline", "inline-typed":
+				on := ""
+				if op.Wrap == "inline-typed" {
+					on = "Subscription"
+				}
+				doc.Ops[0].Sels = []*hx.Sel{{Kind: "inline", On: on, Sels: doc.Ops[0].Sels}}
+			case "spread":
+				doc.Frags = append(append([]*hx.Frag{}, doc.Frags...), &hx.Frag{Name: "SubF", On: "Subscription", Sels: doc.Ops[0].Sels})
+				doc.Ops[0].Sels = []*hx.Sel{{Kind: "spread", Name: "SubF"}}
+			}
+			if op.Wrap != "" {
+				traits["subscription-field-inside-a-fragment"] = true
 			}
 			doc.Number()
 			text := doc.Render(hx.Layout{Mode: "single"}).Text
